@@ -25,7 +25,8 @@ EXPLANATION = (
     'M -> U M (U unitary). C20.d: the whitening matrix W of a Hermitian positive definite C satisfies W^H C W = I (eigen '
     'decomposition contract with orthonormal eigenvectors). An operator the normalisers do not know is an ANALYSIS-ERROR, never '
     'a violation. Not decided: the principal-angle route (a theorem, not a rewriting), the GMD sweep, Sherman-Morrison and '
-    'the eigen/singular selectors as numbers, floating-point error and conditioning.')
+    'the eigen/singular selectors as numbers, floating-point error and conditioning.'
+    ' General rules also applied here (see DESIGN 10.5): input immutability (no in-place modification of an array argument, alias- and view-aware).')
 
 PAIRS = [('linear2dB', 'dB2Linear'), ('dB2Linear', 'linear2dB'), ('linear2dBm', 'dBm2Linear'),
          ('dBm2Linear', 'linear2dBm'), ('EbN0_dB_to_SNR_dB', 'SNR_dB_to_EbN0_dB'),
